@@ -357,7 +357,7 @@ fn record<P: Property>(
                 *acc.known_hits.entry(known[i].id.clone()).or_default() += 1;
                 return Ok(());
             }
-            if is_panic && !prop.panics_are_violations() {
+            if is_panic && !prop.panics_are_violations() && std::env::var("VERIF_STRICT_PANICS").is_err() {
                 if acc.notes.len() < 20 {
                     acc.notes.push(format!("NOTE panic not judged by this property: {}", f.sig));
                 }
